@@ -93,6 +93,9 @@ def handwritten(subset, spelling, style, comments, extra, final_nl, docstart):
     return text
 
 
+EMPTY_SHAPES = ["{}\n", "{}  # nothing configured yet\n", "---\n{}\n", "# only a comment\n", "---\n", "---\n...\n", "\n"]
+
+
 def all_shapes():
     names = list(SECTIONS)
     for r in range(len(names) + 1):
@@ -338,6 +341,7 @@ def items(tier: str, seed: int):
         for first in range(len(_menu())):
             out.append({"kind": "bfs", "rep": rep, "first": first, "depth": depth})
     out.append({"kind": "default-location"})
+    out.append({"kind": "empty-configs"})
     return out
 
 
@@ -416,6 +420,31 @@ def run_item(item) -> Acc:
             frontier = nxt
         acc.stat("bfs_distinct_states", len(seen))
         acc.sample({"bfs_from": item["rep"], "first_command": list(menu[item["first"]]), "depth": item["depth"], "distinct_file_states": len(seen)})
+    elif k == "empty-configs":
+        # an existing configuration that is valid YAML but holds no setting yet
+        for text in EMPTY_SHAPES:
+            for p_ in PRESETS:
+                init = text.encode()
+                _write(root, init)
+                argv = ["init-config", "--non-interactive", "--preset", p_, "--output", F]
+                r = obs.cli_inproc(argv, root)
+                after = _read(root)
+                acc.case()
+                acc.edge()
+                acc.valid()
+                acc.nt(("empty", text, p_))
+                case = _case(init, [" ".join(argv)])
+                try:
+                    ok = after is None or isinstance(yaml.safe_load(after.decode("utf-8")), (dict, type(None)))
+                except Exception:  # noqa: BLE001
+                    ok = False
+                if not ok:
+                    acc.fail({"inv": "merge-result-valid-yaml", "style": "empty-document"}, case, "valid YAML (or the file left untouched)", (after or b"")[:200].decode("utf-8", "replace"), f"exit={r['exit_code']}")
+                r2 = obs.cli_inproc(argv, root)
+                again = _read(root)
+                acc.edge()
+                if again != after:
+                    acc.fail({"inv": "init-config-idempotent", "style": "empty-document"}, case, "second run changes nothing", {"first": len(after or b""), "second": len(again or b"")}, f"exit={r2['exit_code']}")
     elif k == "default-location":
         # default file name through a fresh process: init-config writes ./.thailint.yaml, twice
         r1 = obs.cli_subprocess(["init-config", "--non-interactive"], root)
